@@ -294,10 +294,19 @@ class PairSystem(System):
                             bad("C13", "pair.jaccard_in_unit_interval", {**tag, "obs": j})
             if "C13" in props:
                 # identical operands (incl. empty)
-                for x in (a, b):
-                    j = call(x.jaccard_index, self.clone(State(x, None)).impl)
+                for x, cx in ((a, ca), (b, cb)):
+                    twin = self.clone(State(x, None)).impl
+                    j = call(x.jaccard_index, twin)
                     if j != ("ok", 1.0):
                         bad("C13", "pair.jaccard_identical_is_one", {"obs": j})
+                    it = call(x.intersection, twin)
+                    if it[0] != "ok" or it[1] is None:
+                        bad("C13", "pair.intersection_returns_filter", {"with": "identical operand", "obs": repr(it)[:200]})
+                    else:
+                        ci = bloomlib.cells_of(it[1])
+                        same = ([bool(z) for z in ci] == [bool(z) for z in cx]) if counting else (ci == cx)
+                        if not same:
+                            bad("C13", "pair.intersection_with_identical_is_identity", {"operand": cx, "intersection": ci})
                 self._incompatible(cfg, a, b, hf, counting, bad)
         finally:
             for d in opened:
